@@ -179,6 +179,7 @@ func (propC01) Gen(seed uint64, tier string, idx int) *Plan {
 		}
 		p.Sub += "/waves"
 	}
+	stmtYields(r, p, 300)
 	p.Deadline = 90 * time.Second
 	p.Settle = 50 * time.Millisecond
 	return p
